@@ -90,10 +90,7 @@ def compare(src, prog, globals0, index_names, pattern, known):
     ig = copy.deepcopy(globals0)
     ig['probe'] = make_probe(ilog)
     ig['cc'] = make_cc(ilog, pattern or [True])
-    try:
-        model = impl.bs.parse_script(src)
-    except impl.bs.ParserError as e:
-        raise Violation('generated program does not parse: %s' % e, detail, 'parse') from e
+    model = impl.parse_valid(src, detail)
 
     class L(list):
         def append(self, m):       # logFn receives the message text
